@@ -148,7 +148,27 @@ NextQuery ==
           /\ (st.f \in MemCmpFns \cup {"strcmpfld_s"} /\ dmax # HUGE /\ s # NULLP) => s + dmax - 1 <= N
           /\ st' = c
 
-Next == st.fn = "init" /\ (NextStrCopy \/ NextMemCopy \/ NextFill \/ NextMemccpy \/ NextXform \/ NextQuery)
+(* two-operand queries with dest as the LAST object of the arena (NextQuery always puts the source there): dest's dmax elements
+   end with the arena, so that a read of dest[dmax] - a scan that looks at the next element before it looks at the bound -
+   faults.  The source is terminated and lies in front. *)
+Max2(a, b) == IF a > b THEN a ELSE b
+NextQueryDLast ==
+  /\ st.f \in StrQueryFns /\ TwoOp(st.f) /\ st.d = N
+  /\ \E dstr \in QStrs(QAlphaOf(st.f), K), dterm \in BOOLEAN, sstr \in QStrs(QAlphaOf(st.f), K), extra \in {0, 1},
+        slen \in (IF QHasSlen(st.f) THEN 1..(K + 1) ELSE {0}), cnt \in (IF st.f = "wcsncmp_s" THEN {1, K} ELSE {0}) :
+       LET dl == Len(dstr) + (IF dterm THEN 1 ELSE 0)
+           dmax == dl + (IF dterm THEN extra ELSE 0)          \* without a terminator dest exactly fills dmax
+           d == N - dmax + 1
+           s == 2
+           sl == Len(sstr) + 1
+           need == IF st.f \in MemCmpFns \cup {"strcmpfld_s"} THEN Max2(Max2(sl, slen), dmax) ELSE Max2(sl, slen)
+           a == Place(Place(Blank, s, sstr, TRUE), d, dstr, dterm)
+           c == [fn |-> st.f, w |-> QWidth(st.f), d |-> d, dmax |-> dmax, s |-> s, slen |-> slen, c |-> 0, n |-> cnt,
+                 dbos |-> UNK, sbos |-> UNK, flags |-> 0, pre |-> a, slack |-> 1]
+       IN /\ dmax >= 1 /\ d > s /\ s + need - 1 < d
+          /\ st' = c
+
+Next == st.fn = "init" /\ (NextStrCopy \/ NextMemCopy \/ NextFill \/ NextMemccpy \/ NextXform \/ NextQuery \/ NextQueryDLast)
 Spec == Init /\ [][Next]_st
 
 Cases(c) == {[c EXCEPT !.slack = x] : x \in {0, 1}}
